@@ -266,6 +266,44 @@ pub async fn op_mutate_signed(sc: Value) -> Value {
                 continue;
             }
         }
+        // ---- key objects (left alone by the injection above because a key's id is the digest of the whole key object):
+        // (1) a member slipped into a key (or its keyval) of a signed document, signatures kept, must make the document unacceptable;
+        // (2) a key that carries an unknown member from the start — id computed over the whole key as another implementation would — must be usable
+        for (lvl, in_keyval) in [("/keys/ID/keyval", true), ("/keys/ID", false)] {
+            let id4 = kidhex(4);
+            cases += 1;
+            let mut m1 = targets_doc.clone();
+            {
+                let k = &mut m1["signed"]["delegations"]["keys"][&id4];
+                let obj = if in_keyval { &mut k["keyval"] } else { k };
+                obj.as_object_mut().unwrap().insert("zz-inserted-member".into(), json!("not signed by anybody"));
+            }
+            let files = w.files(&deleg_doc, &m1, None, None).await;
+            if w.loads(&files).await.is_ok() {
+                dev.push(json!({"class": "key-member-mutation-accepted", "level": lvl, "what": format!("consistent={consistent}: targets.json with a member inserted into the object at `signed/delegations{}` and its original signatures is accepted (parents regenerated to match)", lvl.replace("ID", &id4[..8]))}));
+            }
+            cases += 1;
+            let mut t2 = w.targets_signed.clone();
+            let mut kobj = t2["delegations"]["keys"][&id4].clone();
+            {
+                let obj = if in_keyval { &mut kobj["keyval"] } else { &mut kobj };
+                obj.as_object_mut().unwrap().insert("x-unknown-key-member".into(), json!({"kept": true}));
+            }
+            let newid = hex::encode(sha(&canon(&kobj)));
+            {
+                let keysmap = t2["delegations"]["keys"].as_object_mut().unwrap();
+                keysmap.remove(&id4);
+                keysmap.insert(newid.clone(), kobj);
+            }
+            t2["delegations"]["roles"][0]["keyids"] = json!([newid.clone()]);
+            let td2 = sign_value(&t2, &[&keys[3]]).await;
+            let mut dd2 = deleg_doc.clone();
+            dd2["signatures"][0]["keyid"] = json!(newid);
+            let files = w.files(&dd2, &td2, None, None).await;
+            if let Err(e) = w.loads(&files).await {
+                dev.push(json!({"class": "foreign-key-extra-member-refused", "level": lvl, "what": format!("consistent={consistent}: a delegation key carrying an unknown member in the object at `{lvl}` (key id = digest of the whole key, as another implementation computes it) is refused: {e}")}));
+            }
+        }
         // ---- benign changes: re-formatting, member order, unrelated signatures
         for (what, f) in [("compact formatting", 0), ("an unrelated extra signature entry", 1), ("extra whitespace and reversed member order", 2)] {
             cases += 1;
